@@ -620,7 +620,9 @@ pub fn emit_elf(p: &ProgG, l: &Layout, rng: &mut Rng) -> Vec<u8> {
     secs.push(Sec { name: ".data", ty: 1, flags: 0x3, addr: vdata, off: data_off, size: data.len() as u64, align: var_align(ev, 1) });
     let mut extra: Vec<u8> = Vec::new();
     let extra_off = data_off + data.len() as u64;
-    if is_rel && p.markers & 1 != 0 {
+    // executables / shared objects carry the marker sections only on request (bit 2), in the section table only
+    let with_markers = is_rel || p.markers & 4 != 0;
+    if with_markers && p.markers & 1 != 0 {
         let modinfo = b"license=GPL\0name=verif\0";
         secs.push(Sec { name: ".modinfo", ty: 1, flags: 0x2, addr: 0, off: extra_off + extra.len() as u64, size: modinfo.len() as u64, align: 1 });
         extra.extend_from_slice(modinfo);
@@ -628,7 +630,7 @@ pub fn emit_elf(p: &ProgG, l: &Layout, rng: &mut Rng) -> Vec<u8> {
             extra.push(0);
         }
     }
-    if is_rel && p.markers & 2 != 0 {
+    if with_markers && p.markers & 2 != 0 {
         secs.push(Sec { name: ".gnu.linkonce.this_module", ty: 1, flags: 0x3, addr: 0, off: extra_off + extra.len() as u64, size: 64, align: 8 });
         extra.extend_from_slice(&[0u8; 64]);
     }
@@ -1219,10 +1221,11 @@ impl<'a> Gen<'a> {
         let project = emit_project(&self.prog, &l);
         let elf = emit_elf(&self.prog, &l, self.rng);
         let mut sections = vec![".text".to_string(), ".data".to_string()];
-        if self.prog.kind == Kind::Lkm && self.prog.markers & 1 != 0 {
+        let with_markers = self.prog.kind == Kind::Lkm || self.prog.markers & 4 != 0;
+        if with_markers && self.prog.markers & 1 != 0 {
             sections.push(".modinfo".into());
         }
-        if self.prog.kind == Kind::Lkm && self.prog.markers & 2 != 0 {
+        if with_markers && self.prog.markers & 2 != 0 {
             sections.push(".gnu.linkonce.this_module".into());
         }
         if self.prog.debug_section {
@@ -1233,7 +1236,7 @@ impl<'a> Gen<'a> {
         Input {
             project: project.to_string(),
             elf,
-            is_lkm: self.prog.kind == Kind::Lkm && self.prog.markers == 3,
+            is_lkm: self.prog.kind == Kind::Lkm && self.prog.markers & 3 == 3,
             elf_facts: json!({"type": etype, "sections": sections}),
             features: self.features,
         }
@@ -2190,7 +2193,13 @@ impl Recipe {
     /// relocatable objects: both kernel-module marker sections (a kernel module), exactly one, or none
     pub fn random_markers(rng: &mut Rng, kind: Kind) -> u8 {
         if kind != Kind::Lkm {
-            return 3;
+            // executables / shared objects: usually no marker sections; sometimes both or one (bit 2 = emit them)
+            return match rng.below(10) {
+                0..=5 => 0,
+                6 | 7 => 7,
+                8 => 5,
+                _ => 6,
+            };
         }
         match rng.below(10) {
             0..=4 => 3,
@@ -2223,7 +2232,7 @@ impl Recipe {
         }
         rng.shuffle(&mut gadgets);
         let markers = Recipe::random_markers(rng, kind);
-        let cfg_lkm = kind == Kind::Lkm && markers == 3 && rng.chance(1, 2);
+        let cfg_lkm = kind == Kind::Lkm && markers & 3 == 3 && rng.chance(1, 2);
         Recipe { g: "gadget".into(), state: rng.next() | 1, kind, gadgets, split: rng.chance(1, 3), extra: rng.below(3) as usize, cfg_lkm, shared: false, markers }
     }
     pub fn special(name: &str, kind: Kind, state: u64) -> Recipe {
@@ -2304,7 +2313,7 @@ impl Recipe {
     pub fn random_program(rng: &mut Rng) -> Recipe {
         let kind = Recipe::random_kind(rng);
         let markers = Recipe::random_markers(rng, kind);
-        let cfg_lkm = kind == Kind::Lkm && markers == 3 && rng.chance(1, 2);
+        let cfg_lkm = kind == Kind::Lkm && markers & 3 == 3 && rng.chance(1, 2);
         Recipe { g: "random".into(), state: rng.next() | 1, kind, gadgets: vec![], split: false, extra: 0, cfg_lkm, shared: rng.chance(1, 2), markers }
     }
 }
